@@ -904,10 +904,19 @@ class Engine:
             return AND(a.ln == len(b.lit), *[z3.Select(a.arr, a.off + i) == ord(ch) for i, ch in enumerate(b.lit)])
         if a.arr.eq(b.arr) and a.off.eq(b.off) and a.ln.eq(b.ln):
             return TRUE
-        i = fresh_int('qi')
-        return AND(a.ln == b.ln,
-                   z3.ForAll([i], z3.Implies(z3.And(i >= 0, i < a.ln),
-                                             z3.Select(a.arr, a.off + i) == z3.Select(b.arr, b.off + i))))
+        # quantified over absolute positions of a's array (and, redundantly, of b's): the trigger
+        # Select(arr, k) then matches a character term whatever arithmetic its index carries
+        k = fresh_int('qi')
+        k2 = fresh_int('qi')
+        qa = forall_trig([k], z3.Implies(z3.And(k >= a.off, k < a.off + a.ln),
+                                         z3.Select(a.arr, k) == z3.Select(b.arr, simp(b.off + k - a.off))),
+                         z3.Select(a.arr, k))
+        if a.arr.eq(b.arr):
+            return AND(a.ln == b.ln, qa)
+        qb = forall_trig([k2], z3.Implies(z3.And(k2 >= b.off, k2 < b.off + b.ln),
+                                          z3.Select(b.arr, k2) == z3.Select(a.arr, simp(a.off + k2 - b.off))),
+                         z3.Select(b.arr, k2))
+        return AND(a.ln == b.ln, qa, qb)
 
     # slices
     def clamp_index(self, i, n):
